@@ -371,6 +371,10 @@ long simv_cell_add(int i, long d) { return cells[i] += d; }
 double simv_dcell_get(int i) { return dcells[i]; }
 void simv_dcell_set(int i, double v) { dcells[i] = v; }
 
+/* Note: the run hash deliberately does not contain sync-object ordinals: std::mutex has a
+ * trivial destructor, so a mutex created later in the same run may or may not reuse the
+ * address (and hence the table entry) of a destroyed one depending on the heap state left by
+ * earlier runs in this process; the hash must be a function of the plan alone. */
 /* ---------------------------------------------------------------- interposed API */
 static void *trampoline(void *p) {
     sthread *x = (sthread*)p;
@@ -435,7 +439,7 @@ int pthread_mutex_lock(pthread_mutex_t *m) {
     int self = my_tid;
     sobj *o = getobj(m, 1);
     T[self].state = T_WANT_MUTEX; T[self].obj = m;
-    hmix(((uint64_t)self << 8) | OP_LOCK | ((uint64_t)o->ord << 20));
+    hmix(((uint64_t)self << 8) | OP_LOCK);
     reschedule(self, 0);
     o->owner = self; o->depth++;
     vc_join(T[self].vc, o->vc);
@@ -449,7 +453,7 @@ int pthread_mutex_trylock(pthread_mutex_t *m) {
     int self = my_tid;
     sobj *o = getobj(m, 1);
     T[self].state = T_RUN;
-    hmix(((uint64_t)self << 8) | OP_TRYLOCK | ((uint64_t)o->ord << 20));
+    hmix(((uint64_t)self << 8) | OP_TRYLOCK);
     reschedule(self, 0);
     if (o->owner >= 0 && o->owner != self) return EBUSY;
     int r = r_trylock(m);
@@ -467,7 +471,7 @@ int pthread_mutex_unlock(pthread_mutex_t *m) {
     }
     int r = r_unlock(m);
     T[self].state = T_RUN;
-    hmix(((uint64_t)self << 8) | OP_UNLOCK | ((uint64_t)o->ord << 20));
+    hmix(((uint64_t)self << 8) | OP_UNLOCK);
     reschedule(self, 0);
     return r;
 }
@@ -483,13 +487,13 @@ static int sim_cond_wait(pthread_cond_t *c, pthread_mutex_t *m) {
     r_unlock(m);
     T[self].state = T_WAIT_COND; T[self].obj = c; T[self].obj2 = m;
     st.cond_waits++;
-    hmix(((uint64_t)self << 8) | OP_CWAIT | ((uint64_t)oc->ord << 20));
+    hmix(((uint64_t)self << 8) | OP_CWAIT);
     reschedule(self, 0);
     /* woken (signal / broadcast / spurious), chosen, and the mutex is free */
     o->owner = self; o->depth = 1;
     vc_join(T[self].vc, o->vc);
     T[self].state = T_RUN;
-    hmix(((uint64_t)self << 8) | OP_CWAKE | ((uint64_t)oc->ord << 20));
+    hmix(((uint64_t)self << 8) | OP_CWAKE);
     r_lock(m);
     return 0;
 }
@@ -520,7 +524,7 @@ int pthread_cond_signal(pthread_cond_t *c) {
         T[t].state = T_WANT_MUTEX; T[t].obj = T[t].obj2;
     }
     T[self].state = T_RUN;
-    hmix(((uint64_t)self << 8) | OP_SIGNAL | ((uint64_t)oc->ord << 20) | ((uint64_t)nw << 32));
+    hmix(((uint64_t)self << 8) | OP_SIGNAL | ((uint64_t)nw << 32));
     reschedule(self, 0);
     return 0;
 }
@@ -532,7 +536,7 @@ int pthread_cond_broadcast(pthread_cond_t *c) {
     int nw = 0;
     for (int t = 0; t < nthreads; ++t) if (T[t].state == T_WAIT_COND && T[t].obj == (void*)c) { T[t].state = T_WANT_MUTEX; T[t].obj = T[t].obj2; nw++; }
     T[self].state = T_RUN;
-    hmix(((uint64_t)self << 8) | OP_BCAST | ((uint64_t)oc->ord << 20) | ((uint64_t)nw << 32));
+    hmix(((uint64_t)self << 8) | OP_BCAST | ((uint64_t)nw << 32));
     reschedule(self, 0);
     return 0;
 }
